@@ -67,6 +67,10 @@ fn known_keys(prop: &str) -> Vec<String> {
 }
 
 fn quiet_panics() {
+    // VERIF_LOUD=1 keeps the default panic hook (diagnosing a worker that dies of a harness panic)
+    if std::env::var("VERIF_LOUD").is_ok() {
+        return;
+    }
     std::panic::set_hook(Box::new(|_| {}));
 }
 
